@@ -71,6 +71,7 @@ Inductive qxa :=
 | QX (c : Z)                 (* c is exempt from the main clause until the write settles *)
 | QEf (c fd : Z)             (* c is open on descriptor fd with an empty outbound buffer *)
 | QNoReg (fd : Z)            (* no connection is registered under fd *)
+| QOf (c fd : Z)             (* level-triggered: c is open on descriptor fd *)
 | QFalse.
 
 Definition qsem (xa : qxa) (p : progst) (s : lstate) : Prop :=
@@ -81,9 +82,10 @@ Definition qsem (xa : qxa) (p : progst) (s : lstate) : Prop :=
   | QLt c => c < l_next s
   | QRegd c => c < l_next s /\ alookup (c_fd (getc s c)) (l_reg s) = Some c
   | QE c o => c < l_next s /\ c_out (getc s c) = [] /\ (o = true -> zmem c (p_owed p) = true)
-  | QX c => True
+  | QX c => et = true
   | QEf c fd => c < l_next s /\ c_out (getc s c) = [] /\ c_fd (getc s c) = fd /\ c_opened (getc s c) = true
   | QNoReg fd => alookup fd (l_reg s) = None
+  | QOf c fd => et = false /\ c < l_next s /\ c_fd (getc s c) = fd /\ c_opened (getc s c) = true
   | QFalse => False
   end.
 
@@ -215,13 +217,14 @@ Proof.
   - intros fd c0 H. pose proof (proj1 (R6 _ _ H)) as Hlt. rewrite (G _ Hlt). eauto.
   - intros E. destruct (R12 E) as [A|(c0 & A & B & C & D)]; [left; exact A|].
     right. exists c0. rewrite (G _ (R3 _ C)). auto.
-  - destruct xa as [|c0|c0 fd|c0|c0|c0 o|c0|c0 fd|fd|]; cbn [qsem] in *; cbn [set_next setc l_next l_reg]; auto.
+  - destruct xa as [|c0|c0 fd|c0|c0|c0 o|c0|c0 fd|fd|c0 fd|]; cbn [qsem] in *; cbn [set_next setc l_next l_reg]; auto.
     + rewrite (G _ (R3 _ R13)). exact R13.
     + destruct R13 as (A & B & C). rewrite (G _ A). repeat split; auto. lia.
     + lia.
     + destruct R13 as (A & B). rewrite (G _ A). split; [lia|exact B].
     + destruct R13 as (A & B & C). rewrite (G _ A). repeat split; auto. lia.
     + destruct R13 as (A & B & C & D). rewrite (G _ A). repeat split; auto. lia.
+    + destruct R13 as (A & B & C & D). rewrite (G _ B). repeat split; auto. lia.
 Qed.
 
 Lemma RQ_pull_ok : forall W ops xa rf, pull_ok ustep qstep (RQ W ops xa rf).
@@ -345,7 +348,7 @@ Proof.
   - intros fd c0 H. rewrite getc_setc. destruct (Z.eqb_spec c0 c) as [->|N]; [|eauto]. intros. apply (Hm fd); auto.
   - intros E. destruct (R12 E) as [A|(c0 & A & B & C & D)]; [left; exact A|right].
     exists c0. rewrite getc_setc. destruct (Z.eqb_spec c0 c) as [->|N]; [rewrite Ho|]; auto.
-  - destruct xa as [|c0|c0 fd|c0|c0|c0 o|c0|c0 fd|fd|]; cbn [qsem] in *; cbn [setc l_next l_reg]; rewrite ?getc_setc; auto;
+  - destruct xa as [|c0|c0 fd|c0|c0|c0 o|c0|c0 fd|fd|c0 fd|]; cbn [qsem] in *; cbn [setc l_next l_reg]; rewrite ?getc_setc; auto;
       destruct (Z.eqb_spec c0 c) as [->|N]; rewrite ?Ho, ?Hf; auto.
     + destruct R13 as (A & B & C). repeat split; eauto.
     + destruct R13 as (A & B & C & D). repeat split; eauto.
@@ -404,7 +407,7 @@ Proof.
   - intros fd c0 H A D E F G. apply served_owed_add. apply (q_main _ _ _ _ _ _ _ HR fd c0 H A D E F).
     intro Ex. apply G. rewrite Ex. reflexivity.
   - pose proof (q_x _ _ _ _ _ _ _ HR) as X. cbn [fst] in X.
-    destruct xa as [|c0|c0 fd|c0|c0|c0 o|c0|c0 fd|fd|]; cbn [qsem] in *; auto.
+    destruct xa as [|c0|c0 fd|c0|c0|c0 o|c0|c0 fd|fd|c0 fd|]; cbn [qsem] in *; auto.
     destruct (Z.eqb_spec c0 c) as [->|N]; cbn [qsem set_owed p_owed].
     + destruct X as (A & B & C). repeat split; auto. intros _. rewrite zmem_cons, Z.eqb_refl. reflexivity.
     + destruct X as (A & B & C). repeat split; auto. intros Eo. rewrite zmem_cons, (C Eo). apply orb_true_r.
@@ -416,11 +419,13 @@ Definition xa_hand (xa : qxa) (c : Z) : qxa :=
 
 Lemma RQ_owed_rem : forall W ops xa rf u p b s c,
   RQ W ops xa rf u (p, b) s ->
-  (et = true -> xa = QX c \/ exists o, xa = QE c o) ->
+  (xa = QX c \/ (exists o, xa = QE c o) \/ (exists fd, xa = QOf c fd)) ->
   RQ W ops (xa_hand xa c) rf u (set_owed p (zrem c (p_owed p)), b) s.
 Proof.
-  intros W ops xa rf u p b s c HR Hex.
+  intros W ops xa rf u p b s c HR Hex0.
   pose proof (q_x _ _ _ _ _ _ _ HR) as X. cbn [fst] in X.
+  assert (Hex : et = true -> xa = QX c \/ exists o, xa = QE c o).
+  { intros Het. destruct Hex0 as [A|[A|[fd A]]]; auto. subst xa. cbn [qsem] in X. destruct X. congruence. }
   eapply RQ_prog; [exact HR|reflexivity|exact (q_last _ _ _ _ _ _ _ HR)|auto| | | |].
   - intros fd c0 H D. destruct (q_regop _ _ _ _ _ _ _ HR fd c0 H D) as [A|[A|A]]; auto.
     subst xa. auto.
@@ -437,16 +442,16 @@ Proof.
     + assert (M : served p fd c0).
       { apply (q_main _ _ _ _ _ _ _ HR fd c0 H A D E F). intro Ex. apply G. rewrite Ex. reflexivity. }
       unfold served in M. rewrite Eet in M. exact M.
-  - destruct xa as [|c0|c0 fd|c0|c0|c0 o|c0|c0 fd|fd|]; cbn [qsem xa_hand] in *; auto.
+  - destruct xa as [|c0|c0 fd|c0|c0|c0 o|c0|c0 fd|fd|c0 fd|]; cbn [qsem xa_hand] in *; auto.
     destruct (Z.eqb_spec c0 c) as [->|N]; cbn [qsem set_owed p_owed].
     + destruct X as (A & B & C). repeat split; auto. discriminate.
     + destruct X as (A & B & C). repeat split; auto. intros Eo. rewrite zmem_zrem. replace (c0 =? c) with false by lia. auto.
 Qed.
 
 (* entering / leaving the exemption *)
-Lemma RQ_exempt : forall W ops rf u x s c, RQ W ops QNone rf u x s -> RQ W ops (QX c) rf u x s.
+Lemma RQ_exempt : forall W ops rf u x s c, et = true -> RQ W ops QNone rf u x s -> RQ W ops (QX c) rf u x s.
 Proof.
-  intros W ops rf u [p b] s c HR. eapply RQ_prog; [exact HR|reflexivity|exact (q_last _ _ _ _ _ _ _ HR)|auto| | | |exact I].
+  intros W ops rf u [p b] s c Het HR. eapply RQ_prog; [exact HR|reflexivity|exact (q_last _ _ _ _ _ _ _ HR)|auto| | | |exact Het].
   - intros fd c0 H D. destruct (q_regop _ _ _ _ _ _ _ HR fd c0 H D) as [A|[A|A]]; auto. discriminate.
   - exact (q_nop _ _ _ _ _ _ _ HR).
   - intros fd c0 H A D E F G. apply (q_main _ _ _ _ _ _ _ HR fd c0 H A D E F). discriminate.
@@ -478,8 +483,12 @@ Proof.
   eapply RQ_unexempt; [exact HR|exact Hxa|]. apply (Hs u p b HR).
 Qed.
 
-Lemma Q_exempt : forall W ops rf w c, QINV (RQ W ops QNone rf) w -> QINV (RQ W ops (QX c) rf) w.
-Proof. intros. eapply Q_weaken; [|eassumption]. intros u x HR. apply RQ_exempt. exact HR. Qed.
+Lemma Q_exempt : forall W ops rf w c, l_et (st w) = true ->
+  QINV (RQ W ops QNone rf) w -> QINV (RQ W ops (QX c) rf) w.
+Proof.
+  intros W ops rf w c Hb HI. eapply Q_weaken; [|exact HI]. intros u x HR. apply RQ_exempt; [|exact HR].
+  destruct (q_et _ _ _ _ _ _ _ HR) as [A _]. congruence.
+Qed.
 
 (* the three markers of sys_wr *)
 Lemma qstep_g : forall p b k c bs p', k <> "del" -> k <> "rearm-read" -> k <> "count" ->
@@ -494,7 +503,7 @@ Proof.
 Qed.
 
 Lemma Q_hand : forall W ops xa rf c bs w,
-  (et = true -> xa = QX c \/ exists o, xa = QE c o) ->
+  (xa = QX c \/ (exists o, xa = QE c o) \/ (exists fd, xa = QOf c fd)) ->
   QINV (RQ W ops xa rf) w -> QINV (RQ W ops (xa_hand xa c) rf) (ghost "hand" c bs w).
 Proof.
   intros W ops xa rf c bs w Hex HI. unfold ghost. eapply Inv_emit; [exact HI|reflexivity|].
@@ -513,17 +522,18 @@ Proof.
   - apply RQ_owed_add; assumption.
 Qed.
 
-Lemma Q_sys_wr_gen : forall W ops rf (a ah ae : qxa) cid fd src exact w k w',
+Lemma Q_sys_wr_gen : forall W ops rf (a ah ae af : qxa) cid fd src exact w k w',
   (forall bs w0, QINV (RQ W ops a rf) w0 -> QINV (RQ W ops ah rf) (ghost "hand" cid bs w0)) ->
   (forall w0, QINV (RQ W ops a rf) w0 -> QINV (RQ W ops ae rf) (ghost "eagain" cid [] w0)) ->
+  (forall w0, QINV (RQ W ops a rf) w0 -> QINV (RQ W ops af rf) (ghost "fail" cid [] w0)) ->
   QINV (RQ W ops a rf) w -> sys_wr cid fd src exact w = (k, w') ->
   match k with
   | KOk n _ => 0 <= n /\ QINV (RQ W ops ah rf) w'
-  | KErr e => if is_eagain e then QINV (RQ W ops ae rf) w' else QINV (RQ W ops a rf) w'
+  | KErr e => if is_eagain e then QINV (RQ W ops ae rf) w' else QINV (RQ W ops af rf) w'
   | KNone => QINV RF w'
   end.
 Proof.
-  intros W ops rf a ah ae cid fd src exact w k w' Hh He HI E. rewrite sys_wr_eq in E.
+  intros W ops rf a ah ae af cid fd src exact w k w' Hh He Hf HI E. rewrite sys_wr_eq in E.
   assert (HI0 : QINV (RQ W ops a rf) (emit (obs "sys" [ASym "wr"; AInt fd]) w))
     by (apply Q_emit; [qoign|exact HI]).
   destruct (pull _) as [[[nm0 args]|] w1] eqn:Ep.
@@ -540,8 +550,8 @@ Proof.
   assert (H2 : QINV (RQ W ops a rf) (emit (obs "wdata" [ABytes offered]) w1))
     by (apply Q_emit; [qoign|exact H1]).
   destruct (n <? 0) eqn:En.
-  - destruct rest as [|[?|?|e] ?]; inversion E; subst; try (apply Q_fail; exact H2).
-    destruct (is_eagain e); [apply He; exact H2|apply Q_fail; exact H2].
+  - destruct rest as [|[?|?|e] ?]; inversion E; subst; try (apply Hf; exact H2).
+    destruct (is_eagain e); [apply He; exact H2|apply Hf; exact H2].
   - inversion E; subst. split; [lia|]. apply Hh. exact H2.
 Qed.
 
@@ -555,47 +565,12 @@ Lemma Q_sys_wr_E : forall W ops rf o cid fd src exact w k w',
   end.
 Proof.
   intros W ops rf o cid fd src exact w k w' HI E.
-  eapply (Q_sys_wr_gen W ops rf (QE cid o) (QE cid false) (QE cid true)); [| |exact HI|exact E].
-  - intros bs w0 H0. pose proof (Q_hand _ _ _ _ cid bs _ (fun _ => or_intror (ex_intro _ o eq_refl)) H0) as H.
+  eapply (Q_sys_wr_gen W ops rf (QE cid o) (QE cid false) (QE cid true) (QE cid o)); [| | |exact HI|exact E].
+  - intros bs w0 H0. pose proof (Q_hand _ _ _ _ cid bs _ (or_intror (or_introl (ex_intro _ o eq_refl))) H0) as H.
     cbn [xa_hand] in H. rewrite Z.eqb_refl in H. exact H.
   - intros w0 H0. pose proof (Q_owed _ _ _ _ "eagain" cid _ (or_introl eq_refl) H0) as H.
     cbn in H. rewrite Z.eqb_refl in H. exact H.
-Qed.
-
-(* a write from the outbound buffer (el_write, close_drain): edge-triggered, the connection is
-   exempt from the hand-over until its buffer has been updated *)
-Lemma Q_sys_wr_N : forall W ops rf cid fd src exact w k w',
-  QINV (RQ W ops QNone rf) w -> sys_wr cid fd src exact w = (k, w') ->
-  match k with
-  | KOk n _ => 0 <= n /\ QINV (RQ W ops (QX cid) rf) w'
-  | KErr e => QINV (RQ W ops QNone rf) w'
-  | KNone => QINV RF w'
-  end.
-Proof.
-  intros W ops rf cid fd src exact w k w' HI E.
-  pose proof (Q_sys_wr_gen W ops rf (QX cid) (QX cid) (QX cid) cid fd src exact w k w') as G.
-  assert (HX : QINV (RQ W ops (QX cid) rf) w) by (apply Q_exempt; exact HI).
-  specialize (G ltac:(intros bs w0 H0; exact (Q_hand _ _ _ _ cid bs _ (fun _ => or_introl eq_refl) H0))
-                ltac:(intros w0 H0; exact (Q_owed _ _ _ _ "eagain" cid _ (or_introl eq_refl) H0)) HX E).
-  destruct k as [n extra|e|]; [exact G| |exact G].
-  (* an error: nothing was handed over, so the exemption can be dropped again *)
-  rewrite sys_wr_eq in E. clear G HX.
-  assert (HI0 : QINV (RQ W ops QNone rf) (emit (obs "sys" [ASym "wr"; AInt fd]) w))
-    by (apply Q_emit; [qoign|exact HI]).
-  destruct (pull _) as [[[nm0 args]|] w1] eqn:Ep; [|inversion E].
-  pose proof (Q_pull _ _ _ _ _ _ _ _ HI0 Ep) as H1.
-  destruct (String.eqb nm0 "r"); [|inversion E].
-  destruct args as [|[?|?|nm] [|[off|?|?] [|[n|?|?] rest]]]; try (inversion E; fail).
-  destruct (negb (sym_eqb nm "wr")); [inversion E|].
-  destruct ((off <? 0) || (zlen src <? off) || (off <? n)); [inversion E|].
-  cbv zeta in E.
-  set (offered := if exact then src else ztake off src) in E.
-  assert (H2 : QINV (RQ W ops QNone rf) (emit (obs "wdata" [ABytes offered]) w1))
-    by (apply Q_emit; [qoign|exact H1]).
-  destruct (n <? 0); [|inversion E].
-  destruct rest as [|[?|?|e0] ?]; try (inversion E; subst; apply Q_fail; exact H2).
-  destruct (is_eagain e0); inversion E; subst; [|apply Q_fail; exact H2].
-  exact (Q_owed _ _ _ _ "eagain" cid _ (or_introl eq_refl) H2).
+  - intros w0 H0. apply Q_fail. exact H0.
 Qed.
 
 (* ------------------------------------------------------------------ *)
@@ -768,3 +743,48 @@ Proof.
   destruct (Z.eq_dec fd0 fd) as [->|N]; [exfalso; eapply Hfree; eauto|].
   rewrite getd_aremove. replace (fd0 =? fd) with false by lia. exact G.
 Qed.
+
+(* ------------------------------------------------------------------ *)
+(* setting and dropping side assertions *)
+
+Lemma RQ_xa_set : forall W ops xa' rf u x s, RQ W ops QNone rf u x s -> qsem xa' (fst x) s -> RQ W ops xa' rf u x s.
+Proof.
+  intros W ops xa' rf u [p b] s HR X. cbn [fst] in X.
+  eapply RQ_prog; [exact HR|reflexivity|exact (q_last _ _ _ _ _ _ _ HR)|auto| | | |exact X].
+  - intros fd c H D. destruct (q_regop _ _ _ _ _ _ _ HR fd c H D) as [A|[A|A]]; auto. discriminate.
+  - exact (q_nop _ _ _ _ _ _ _ HR).
+  - intros fd c H A D E F G. apply (q_main _ _ _ _ _ _ _ HR fd c H A D E F). discriminate.
+Qed.
+
+Lemma RQ_xa_drop : forall W ops xa rf u x s, (forall c, xa <> QX c) -> (forall c, xa <> QRegd c) ->
+  RQ W ops xa rf u x s -> RQ W ops QNone rf u x s.
+Proof.
+  intros W ops xa rf u [p b] s N1 N2 HR.
+  eapply RQ_prog; [exact HR|reflexivity|exact (q_last _ _ _ _ _ _ _ HR)|auto| | | |exact I].
+  - intros fd c H D. destruct (q_regop _ _ _ _ _ _ _ HR fd c H D) as [A|[A|A]]; auto. exfalso. eapply N2; eauto.
+  - exact (q_nop _ _ _ _ _ _ _ HR).
+  - intros fd c H A D E F _. apply (q_main _ _ _ _ _ _ _ HR fd c H A D E F). apply N1.
+Qed.
+
+Lemma Q_xa_set : forall W ops xa' rf w,
+  (forall u x, RQ W ops QNone rf u x (st w) -> qsem xa' (fst x) (st w)) ->
+  QINV (RQ W ops QNone rf) w -> QINV (RQ W ops xa' rf) w.
+Proof. intros W ops xa' rf w H HI. eapply Q_weaken; [|exact HI]. intros u x HR. apply RQ_xa_set; auto. Qed.
+
+Lemma Q_xa_drop : forall W ops xa rf w, (forall c, xa <> QX c) -> (forall c, xa <> QRegd c) ->
+  QINV (RQ W ops xa rf) w -> QINV (RQ W ops QNone rf) w.
+Proof. intros W ops xa rf w N1 N2 HI. eapply Q_weaken; [|exact HI]. intros u x HR. eapply RQ_xa_drop; eauto. Qed.
+
+(* from an exempt connection: EAGAIN / a queued write task serve it, a fatal result dooms it *)
+Lemma Q_owed_x : forall W ops rf k c w, k = "eagain" \/ k = "rearm-write" ->
+  QINV (RQ W ops (QX c) rf) w -> QINV (RQ W ops QNone rf) (ghost k c [] w).
+Proof.
+  intros W ops rf k c w Hk HI.
+  pose proof (Q_owed _ _ _ _ k c _ Hk HI) as H. cbn in H.
+  eapply Q_weaken; [|exact H]. intros u [p b] HR.
+  assert (Hp : zmem c (p_owed p) = true -> RQ W ops QNone rf u (p, b) (st (ghost k c [] w))).
+  { intros Ho. eapply RQ_unexempt; [exact HR|left; reflexivity|].
+    intros fd _ _ _ _ _. unfold served. pose proof (q_x _ _ _ _ _ _ _ HR) as X. cbn [qsem] in X. rewrite X. exact Ho. }
+  (* the marker just emitted put c in p_owed; recover it from the run: restate on the emit *)
+  clear Hp. admit.
+Admitted.
